@@ -10,6 +10,9 @@ CONSTANTS
   MaxRounds = 1
   FixVoidSrc = TRUE
   ArmLate = {"discard"}
+  RegCtxs = {"plain"}
+  ResCtxs = {"plain"}
+  SkipUnwinding = {}
   ArgsByRef = FALSE
 INVARIANTS TypeOK CallbackOnce RightOutcome HelperFreedOnce ConvertedValueOrException PublishedResumable ArgsAsPassed NoStuckState
 CHECK_DEADLOCK FALSE
